@@ -392,3 +392,7 @@ mod test {
         assert_eq!(rust_ser, value_ser);
     }
 }
+
+#[cfg(kani)]
+#[path = "/verif/kani/aranya-policy-vm/serialize.rs"]
+mod verif_kani;
